@@ -195,6 +195,7 @@ def run(oc, tier, seed):
             # a destination that is not indexed and lacks the final newline
             write_tree(d, {"no_newline.zo": "# No trailing newline\n\n- 240301#00 last line without newline"})
             dests = ["alpha", "beta.zo", "sub/gamma", "empty_dest", "no_newline", "sections_dest", "new/created", "missing/nowhere"]
+            search_budget = 40
             for _ in range(n_moves):
                 z = rng.choice(zids)
                 info = note_info(d, z)
@@ -209,8 +210,15 @@ def run(oc, tier, seed):
                 if len(oc.samples) < 3:
                     oc.samples.append({"zid": z, "dest": dest, "marker": marker, "body": info["body"]})
                 if not ok:
-                    eng.close()
-                    return
+                    # a model/implementation difference: keep searching (bounded) for an input on which the
+                    # property itself fails, so that the report carries a concrete replay
+                    if any(f[3] is None for f in oc.spec_fail):
+                        eng.close()
+                        return
+                    search_budget -= 1
+                    if search_budget <= 0:
+                        eng.close()
+                        return
     eng.close()
 
 
